@@ -45,7 +45,15 @@ def _group(args):
     wire, bnd, scheds, forms, modelhdr = args
     cfg = {"op": "cfg", "bnd": list(bnd), "wire": list(wire), "ref": mp.ref_of(wire, bnd),
            "formref": mp.run_form(wire, bnd, len(wire) + 1), "modelhdr": modelhdr, "ctype": "multipart"}
-    return cfg, _runs_for(wire, bnd, scheds) + _form_runs(wire, bnd, forms)
+    runs = _runs_for(wire, bnd, scheds) + _form_runs(wire, bnd, forms)
+    # the same schedules with the part-count limit set to exactly the number of parts of the body: an exact
+    # limit must not start to depend on how the bytes arrive (clause PartsLimitSpurious)
+    ref = cfg["ref"]
+    if ref["err"] == "" and ref["parts"]:
+        n = len(ref["parts"])
+        fine = sorted(scheds, key=lambda c: -len(c))[:3]
+        runs += _runs_for(wire, bnd, fine, (None, n)) + _form_runs(wire, bnd, forms[:2], (None, n))
+    return cfg, runs
 
 
 def schedules_for(n, rng, *, three_way: bool, nrandom: int):
